@@ -1505,6 +1505,10 @@ class Interp:
                 return self._mk_enum(parts[-2], parts[-1], [])
             if len(parts) >= 2 and parts[0] in ("core", "std", "alloc"):
                 return Opaque("foreign constant " + r)
+        if r in ("Less", "Equal", "Greater"):
+            # core::cmp::Ordering, printed bare by the MIR pretty-printer
+            names = ["Less", "Equal", "Greater"]
+            return Enum("Ordering", SV("isize", self.sem.int_const(names.index(r), "isize")), {r: Agg("Ordering::" + r, {})}, names)
         raise Unsupported("%s: rvalue %s" % (fn.name, r))
 
     def _binop(self, fn, op, a, b):
